@@ -327,6 +327,9 @@ def body_dataset(ctx, kind, after_others=False):
         if kind == 'mesh-small':
             # the same mesh at a resolution of about ten metres (cell areas ~1e-8 square degrees)
             nodes = [(150.0 + x * 1e-4, -20.0 + y * 1e-4) for x, y in nodes]
+        if kind == 'mesh-attr' and which >= 1:
+            # a face whose row of the table is padding only: a cell without geometry
+            faces.insert(which, [])
         if kind == 'mesh-attr':
             # built in memory: integer tables, one-based, the fill value kept as an attribute (also 0 and a valid-looking 4)
             ds = builders.ugrid((nodes, faces), fill='attr', start_index=1, fill_value=[999999, 0, -1, 4][which])
@@ -428,7 +431,7 @@ def body_dataset(ctx, kind, after_others=False):
               'result shapes')
     ctx.check(len({tuple(v) for v in vertices.tolist()}) == len(vertices), 'the vertex list has no duplicates')
     ctx.check(bool(((triangles >= 0) & (triangles < len(vertices))).all()), 'every vertex index is valid')
-    ctx.check(all(0 <= int(f) < len(polygons) and polygons[int(f)] is not None for f in faces_of),
+    ctx.check(all(0 <= int(f) < len(polygons) and polygons[int(f)] is not None and not polygons[int(f)].is_empty for f in faces_of),
               'every triangle names the linear index of a cell that has geometry')
     by_face = {}
     for t, f in zip(triangles, faces_of):
@@ -442,7 +445,7 @@ def body_dataset(ctx, kind, after_others=False):
         if sample is not None and n not in sample:
             continue
         mine = by_face.get(n, [])
-        if poly is None:
+        if poly is None or poly.is_empty:
             ctx.check(not mine, 'cells without geometry produce no triangles')
             continue
         sides = len(poly.exterior.coords) - 1
